@@ -352,10 +352,12 @@ Fixpoint plookup (p : Z) (l : list sv) : option (Z * Z) :=
               end
   end.
 
-(* _remove_existing_phasing *)
+(* _remove_existing_phasing (both tags): PS (and PQ, HP) of the call are cleared when the record has the
+   key, GT loses its phasing and is sorted when fully called.  c_ps is None anyway when the record has no
+   PS key, so the PS value of the result is None in every case. *)
 Definition remove_phasing (c : call) : call :=
   mkCall (match all_called (c_gt c) with Some zs => map Some (sort_asc zs) | None => c_gt c end)
-         false (c_ps c).
+         false None.
 
 Definition write_call (p : Z) (st : cstate) (c : call) : call :=
   let gt_type := gvec (c_gt c) in
@@ -366,7 +368,7 @@ Definition write_call (p : Z) (st : cstate) (c : call) : call :=
                        if list_eqb g' gt_type then None else Some g'
     | None => None
     end in
-  let gt1 := match changed with Some g' => map Some g' | None => c_gt c end in
+  let gt1 := match changed with Some g' => map Some (sort_asc g') | None => c_gt c end in   (* tuple(sorted(as_vector())) *)
   let is_het := negb (is_hom (match changed with Some g' => g' | None => gt_type end)) in
   match ph, cget p (snd st) with
   | Some (a0, a1), Some k =>
